@@ -8,6 +8,13 @@ Theorem params_ok_now : Proofs.params_ok = true.
 Proof. exact Proofs.params_ok_now. Qed.
 Print Assumptions params_ok_now.
 
+(* the side condition evaluated at run time on the constants PROBED from the compiled code *)
+Theorem probed_ok_sound : forall p, probed_ok p = true ->
+  two60 <= 2 ^ pr_left_shift p /\
+  forall cs, pr_pl_min_excl p < cs -> cs <= pr_pl_max p -> 0 < cs /\ cs < two32.
+Proof. exact Proofs.probed_ok_sound. Qed.
+Print Assumptions probed_ok_sound.
+
 (* file i starts at the sum of the sizes before it, in torrent order *)
 Theorem layout_offsets : forall cs lay i f, nth_error (c_files (mk_cfg cs lay)) i = Some f ->
   exists sz pad, nth_error lay i = Some (sz, pad) /\
